@@ -93,13 +93,13 @@ Qed.
 
 (* ---------------------------------------------------------------- a tag whose base was changed (Def <-> Def-expand) *)
 
-(* repaired code: the bare-term mode sees the schema path of the NEW entry *)
+(* current code (fix commit c19994c): the bare-term mode sees the schema path of the NEW entry *)
 Lemma rebase_terms_fixed text new_terms new_short i terms s o :
   tag_matches 0 text (rebase_tag true new_terms new_short (Tag i terms s o)) = true <-> In (fold text) new_terms.
 Proof. simpl. apply (proj1 (tag_matches_modes text i new_terms new_short o)). Qed.
 
 (* RECORD OF THE DEFECT (fx4 = false, finding C15-F4): the statement above is
-   false of the code without fix-F4: "def" still matches a tag rebased to
+   false of the behaviour before fix commit c19994c: "def" still matches a tag rebased to
    Def-expand, whose schema path does not contain it *)
 Definition w_def_terms : list str := [[111; 114; 103; 97; 110; 105; 122; 97; 116; 105; 111; 110; 97; 108; 45; 112; 114; 111; 112; 101; 114; 116; 121]%N; [100; 101; 102]%N].
 Definition w_defexp_terms : list str := [[111; 114; 103; 97; 110; 105; 122; 97; 116; 105; 111; 110; 97; 108; 45; 112; 114; 111; 112; 101; 114; 116; 121]%N; [100; 101; 102; 45; 101; 120; 112; 97; 110; 100]%N].
